@@ -10,7 +10,7 @@ VARIABLE hist
 gvars == <<vars, hist>>
 
 Urgent(i) == w[i].pc \in {"take", "merge"}
-Quiet == \A i \in Workers : ~Urgent(i)
+Quiet == caller = "wait" /\ \A i \in Workers : ~Urgent(i)
 
 GInit == Init /\ hist = << >>
 
@@ -20,7 +20,7 @@ GNext ==
         Quiet /\ Direct(i, o) /\ hist' = Append(hist, [s |-> w[i].s, stage |-> "direct", o |-> o])
   \/ \E i \in Workers, o \in NotaryOutcomes :
         Quiet /\ Notary(i, o) /\ hist' = Append(hist, [s |-> w[i].s, stage |-> "notary", o |-> o])
-  \/ Return /\ UNCHANGED hist
+  \/ ((\E s \in Servers : Send(s)) \/ Close \/ StartWorkers \/ Return) /\ UNCHANGED hist
 
 GSpec == GInit /\ [][GNext]_gvars
 
